@@ -27,7 +27,11 @@ class Tokenizer:
         '@variables': CSSProductions.VARIABLES_SYM,
     }
     _linesep = '\n'
-    unicodesub = re.compile(r'\\[0-9a-fA-F]{1,6}(?:\r\n|[\t\r\n\f\x20])?').sub
+    # an escaped backslash is matched first and kept, so that the backslash
+    # it escapes is never taken for the start of the next escape
+    unicodesub = re.compile(
+        r'\\\\|\\[0-9a-fA-F]{1,6}(?:\r\n|[\t\r\n\f\x20])?'
+    ).sub
     cleanstring = re.compile(r'\\((\r\n)|[\n\r\f])').sub
 
     def __init__(self, macros=None, productions=None, doComments=True):
@@ -110,6 +114,8 @@ class Tokenizer:
 
         def _repl(m):
             "used by unicodesub"
+            if m.group(0) == '\\\\':
+                return m.group(0)
             num = int(m.group(0)[1:], 16)
             if num <= sys.maxunicode:
                 return chr(num)
